@@ -222,6 +222,8 @@ type Feat struct {
 	RecCombo                                                               bool // allow reference cycles through allOf/anyOf
 	Shadow                                                                 bool // two files named common.json in two directories
 	ExtShadow                                                              bool // e0f.json and e0f.yaml side by side, referenced without extension
+	SamePkgBase                                                            bool // mapped packages share their last path element (pk1/v1, pk2/v1): no cross-package refs then
+	Decoys                                                                 bool // inert near-duplicate mapping keys (id + "#", id + "/")
 	Twins                                                                  bool // definition / property names that collide as Go identifiers (foo_bar vs foo-bar, Acct vs acct)
 	SharedDef                                                              bool // several files define a definition literally named "Shared" (identical ref spelling, different targets)
 	PlainMarkers                                                           bool // no allOf/anyOf $ref branches (merged copies would carry markers too); every id is emitted
@@ -294,6 +296,8 @@ func genWorld(t *rapid.T, maxFiles int, recCombo, http, shadows bool) *World {
 	feat.ReqCycle = true // only C10 worlds restrict required references
 	feat.SharedDef = rapid.IntRange(0, 99).Draw(t, "f:shareddef") < 35
 	feat.Twins = rapid.IntRange(0, 99).Draw(t, "f:twins") < 25
+	feat.SamePkgBase = rapid.IntRange(0, 99).Draw(t, "f:samepkgbase") < 25
+	feat.Decoys = rapid.IntRange(0, 99).Draw(t, "f:decoys") < 25
 	if shadows {
 		feat.PlainMarkers = true
 		feat.ReqCycle = rapid.IntRange(0, 99).Draw(t, "f:reqcycle") < 10
@@ -479,13 +483,20 @@ func drawOptions(t *rapid.T, w *World, npkg int) Options {
 	case 3:
 		o.Output = "-"
 	}
+	if npkg > 1 && w.Feat.SamePkgBase {
+		o.Package = "example.com/m/main/v1"
+	}
 	if npkg > 1 {
 		// one package + output per group; group 0 keeps the defaults
 		for _, f := range w.Files {
 			if f.Pkg == 0 {
 				continue
 			}
-			o.SchemaPkg = append(o.SchemaPkg, Pair{f.ID, fmt.Sprintf("example.com/m/pk%d", f.Pkg)})
+			pp := fmt.Sprintf("example.com/m/pk%d", f.Pkg)
+			if w.Feat.SamePkgBase {
+				pp += "/v1"
+			}
+			o.SchemaPkg = append(o.SchemaPkg, Pair{f.ID, pp})
 			o.SchemaOut = append(o.SchemaOut, Pair{f.ID, fmt.Sprintf("out/pk%d/gen.go", f.Pkg)})
 		}
 		if o.Output == "" || o.Output == "-" {
@@ -501,6 +512,18 @@ func drawOptions(t *rapid.T, w *World, npkg int) Options {
 				out = "-"
 			}
 			o.SchemaOut = append(o.SchemaOut, Pair{w.Files[0].ID, out})
+		}
+	}
+	if w.Feat.Decoys {
+		// mapping keys that differ from a real id only by a trailing "#" or "/": inert
+		// today (no schema has that id); any normalisation of ids makes them ambiguous
+		for _, f := range w.Files {
+			if f.ID == "" || !b("decoy", 50) {
+				continue
+			}
+			suf := rapid.SampledFrom([]string{"#", "/"}).Draw(t, "decoysuffix")
+			o.SchemaPkg = append(o.SchemaPkg, Pair{f.ID + suf, "example.com/m/decoy"})
+			o.SchemaOut = append(o.SchemaOut, Pair{f.ID + suf, "out/decoy/gen.go"})
 		}
 	}
 	return o
@@ -555,6 +578,43 @@ func (g *genCtx) genDoc() {
 	}
 	_ = xdefs
 	var twinRefs []string
+	var nameClash *RefUse
+	if g.feat.Twins && g.feat.PlainMarkers && !isSpecial(f) && len(f.Defs) > 0 && f.RootObj {
+		// a definition named exactly like the type derived for an inline object property of
+		// another definition (T0Da + property t0p3 -> T0DaT0P3): the definition must still
+		// get its own Go type (T0DaT0P3_1) and its referrers must use that one
+		d0 := f.Defs[0]
+		if dv, ok := defs.Get(d0); ok {
+			if do, ok := dv.(Obj); ok {
+				if props, ok := do.Get("properties"); ok {
+					for _, kv := range props.(Obj) {
+						po, isObj := kv.V.(Obj)
+						if !isObj || !strings.HasPrefix(kv.K, f.Tag+"p") {
+							continue
+						}
+						if ty, _ := po.Get("type"); ty != "object" {
+							continue
+						}
+						if pp, ok := po.Get("properties"); !ok || len(pp.(Obj)) == 0 {
+							continue
+						}
+						if _, hasCombo := po.Get("allOf"); hasCombo {
+							continue
+						}
+						if _, hasCombo := po.Get("anyOf"); hasCombo {
+							continue
+						}
+						clash := d0 + strings.ToUpper(f.Tag[:1]) + f.Tag[1:] + "P" + strings.TrimPrefix(kv.K, f.Tag+"p")
+						f.Defs = append(f.Defs, clash)
+						defs = append(defs, KV{clash, Obj{{"type", "object"}, {"properties", Obj{{"mk_" + f.Tag + "_" + clash, Obj{{"type", "string"}}}, {"clashonly", Obj{{"type", "boolean"}}}}}}})
+						g.nprop++
+						nameClash = &RefUse{FromTag: f.Tag, Prop: fmt.Sprintf("%sr%d", f.Tag, g.nprop), Ref: "#/$defs/" + clash, ToTag: f.Tag, ToDef: clash, Spelling: "fragment", LocalOnly: true}
+						break
+					}
+				}
+			}
+		}
+	}
 	if g.feat.Twins && !isSpecial(f) {
 		// names that map to the same Go identifier (and have the same length): which one
 		// gets the plain name and which the _1 suffix must not depend on map order
@@ -570,6 +630,11 @@ func (g *genCtx) genDoc() {
 	}
 	if f.RootObj {
 		root := g.genMarkerObject("mk_"+f.Tag, "")
+		if nameClash != nil {
+			props, _ := root.Get("properties")
+			root = root.Set("properties", append(props.(Obj), KV{nameClash.Prop, Obj{{"$ref", nameClash.Ref}}}))
+			f.Refs = append(f.Refs, *nameClash)
+		}
 		if len(twinRefs) > 0 {
 			// refer to the twins so that their names propagate into field types
 			props, _ := root.Get("properties")
@@ -714,7 +779,7 @@ func (g *genCtx) drawRef(fromDef string) (RefUse, bool) {
 			}
 			// Go forbids import cycles: across packages only refer "forward"
 			// (higher package number to lower is not allowed) – same package: any.
-			if o.Pkg != f.Pkg && !(f.Pkg < o.Pkg) {
+			if o.Pkg != f.Pkg && (!(f.Pkg < o.Pkg) || g.feat.SamePkgBase) {
 				continue
 			}
 			// cross-file recursion only if enabled: otherwise refer to later files only
